@@ -177,7 +177,7 @@ PROPS = {
     'C06': {
         'level': 'model_checking',
         'engine': 'schedx',
-        'claim': 'Exhaustive over sequentially consistent interleavings: the unmodified src/memory.c (compiled with -fsanitize=thread as an instrumentation pass, TSan runtime NOT linked) runs under a hand-written scheduler in which every atomic operation and every plain load/store of the bookkeeping block, every malloc/free and every sched_yield is a scheduling point; for every 2-thread combination of programs of length <= 2 (thorough 3 x 2) over {reset, share, lock+get, weak_from, weak_reset, unique, alloc(own) = re-targeting the thread\'s owner to a private allocation} x 4 initial reference configurations, all 3-thread single-operation combinations, last-owner reset against two lockers, and 4-thread combinations, ALL interleavings are explored depth-first with visited-state pruning (state = arena bytes + the library\'s static storage + block table + scenario world + every thread\'s real continuation: saved registers and live coroutine stack). Oracles on every execution: exactly-once clear/free of memory and bookkeeping, never while an owner is held, lock soundness, no access into a freed block, no double free, no deadlock (a spinning thread is blocked until memory changes), a data race = two co-enabled conflicting accesses of which one is not atomic, plus a vector-clock happens-before race check that honours the memory orders actually used (so a weakened order is reported too).',
+        'claim': 'Exhaustive over sequentially consistent interleavings: the unmodified src/memory.c (compiled with -fsanitize=thread as an instrumentation pass, TSan runtime NOT linked) runs under a hand-written scheduler in which every atomic operation and every plain load/store of the bookkeeping block, every malloc/free and every sched_yield is a scheduling point; for every 2-thread combination of programs of length <= 2 (thorough 3 x 2) over {reset, share, lock+get, weak_from, weak_reset, unique, alloc(own) = re-targeting the thread\'s owner to a private allocation; in the additional scenario families of the thorough tier the six other operations only} x 4 initial reference configurations, all 3-thread single-operation combinations, last-owner reset against two lockers, and 4-thread combinations, ALL interleavings are explored depth-first with visited-state pruning (state = arena bytes + the library\'s static storage + block table + scenario world + every thread\'s real continuation: saved registers and live coroutine stack). Oracles on every execution: exactly-once clear/free of memory and bookkeeping, never while an owner is held, lock soundness, no access into a freed block, no double free, no deadlock (a spinning thread is blocked until memory changes), a data race = two co-enabled conflicting accesses of which one is not atomic, plus a vector-clock happens-before race check that honours the memory orders actually used (so a weakened order is reported too).',
         'note': 'Sequentially consistent executions of the accesses the compiler kept (gcc 12 -O2 and -O0); weak-memory reorderings are not modelled (every atomic operation of memory.c is seq_cst today; the number of weaker ones executed by scheduled threads is counted in the evidence). At most 4 threads. The harness\'s own probes of the managed memory are liveness checks, not race participants.',
         'technique': 'stateless depth-first exploration of all thread interleavings of the real code under a controlled scheduler (TSan compiler ABI with own runtime), visited-state pruning on real continuations',
         'jobs': [{'world': 'c06', 'src': 'worlds/c06_world.c', 'lib': ['memory.c'], 'san': ['-g', '-fsanitize=thread'], 'wsan': ['-g'], 'extra_src': ['engine/sched.c'],
